@@ -5,10 +5,10 @@ package c01
 
 import (
 	"errors"
-	"sync"
 	"fmt"
 	"sort"
 	"strings"
+	"sync"
 	"testing"
 	"time"
 
@@ -30,17 +30,19 @@ const (
 	clsLeaving
 	clsPending
 	clsJoining
+	clsActiveRO  // ACTIVE, read-only (must not matter to a lookup)
+	clsLeavingRO // LEAVING, read-only (the usual scale-down sequence)
 	clsLeft
 	numCls
 )
 
-var clsName = []string{"A", "As", "L", "P", "J", "X"}
+var clsName = []string{"A", "As", "L", "P", "J", "Aro", "Lro", "X"}
 
 func clsState(c int) ring.InstanceState {
 	switch c {
-	case clsActive, clsStale:
+	case clsActive, clsStale, clsActiveRO:
 		return ring.ACTIVE
-	case clsLeaving:
+	case clsLeaving, clsLeavingRO:
 		return ring.LEAVING
 	case clsPending:
 		return ring.PENDING
@@ -79,6 +81,12 @@ func (rc ringCase) desc(now time.Time) *ring.Desc {
 		d.Ingesters[in.id] = ring.InstanceDesc{
 			Id: in.id, Addr: "addr-" + in.id, Zone: in.zone, State: clsState(in.cls),
 			Timestamp: ts, Tokens: append([]uint32(nil), in.tokens...), RegisteredTimestamp: now.Unix(),
+			ReadOnly: in.cls == clsActiveRO || in.cls == clsLeavingRO,
+		}
+		if in.cls == clsActiveRO || in.cls == clsLeavingRO {
+			x := d.Ingesters[in.id]
+			x.ReadOnlyUpdatedTimestamp = now.Unix()
+			d.Ingesters[in.id] = x
 		}
 	}
 	return d
@@ -210,14 +218,14 @@ type universe struct {
 	maxInst  int
 	maxTok   int // per instance
 	rfs      []int
-	cls      int // number of health classes used (5 drops LEFT, which every built-in op treats like JOINING)
+	cls      int // number of health classes used (7 drops LEFT, which every built-in op treats like JOINING)
 }
 
 func getUniverse() universe {
 	if ev.Thorough() {
-		return universe{tokAlpha: []uint32{0, 1, 7, M - 1, M}, zones: []string{"", "a", "b"}, maxInst: 4, maxTok: 2, rfs: []int{1, 2, 3, 4, 5}, cls: 6}
+		return universe{tokAlpha: []uint32{0, 1, 7, M - 1, M}, zones: []string{"", "a", "b"}, maxInst: 4, maxTok: 2, rfs: []int{1, 2, 3, 4, 5}, cls: 8}
 	}
-	return universe{tokAlpha: []uint32{0, 1, 7, M}, zones: []string{"", "a", "b"}, maxInst: 3, maxTok: 2, rfs: []int{1, 2, 3}, cls: 5}
+	return universe{tokAlpha: []uint32{0, 1, 7, M}, zones: []string{"", "a", "b"}, maxInst: 3, maxTok: 2, rfs: []int{1, 2, 3}, cls: 7}
 }
 
 // enumerate rings with n instances: token→owner assignment (owner 0 = nobody) × per-instance
@@ -443,7 +451,7 @@ func classify(rc ringCase) string {
 func TestC01(t *testing.T) {
 	rep := ev.NewReport("C01", "lookup")
 	u := getUniverse()
-	rep.Bound = fmt.Sprintf("instances 1..%d, tokens/instance 0..%d from %v, zones %q, 6 health classes (ACTIVE at exactly the heartbeat timeout, ACTIVE stale by 1s, LEAVING, PENDING, JOINING, LEFT), RF %v, zone-awareness on/off, 4 ops, keys t-1,t,t+1 for every token + 0,1,M-1,M, 3 buffer variants", u.maxInst, u.maxTok, u.tokAlpha, u.zones, u.rfs)
+	rep.Bound = fmt.Sprintf("instances 1..%d, tokens/instance 0..%d from %v, zones %q, %d health classes of (ACTIVE at exactly the heartbeat timeout, ACTIVE stale by 1s, LEAVING, PENDING, JOINING, ACTIVE read-only, LEAVING read-only, LEFT), RF %v, zone-awareness on/off, 4 ops, keys t-1,t,t+1 for every token + 0,1,M-1,M, 3 buffer variants", u.maxInst, u.maxTok, u.tokAlpha, u.zones, u.cls, u.rfs)
 	rep.Rule = "every descriptor of the universe (token→owner assignments × per-instance (zone,class), instances up to permutation) × RF × zone-awareness × op × boundary key × buffer variant, real Ring.Get vs linear-scan specification; distinct_nontrivial = distinct multisets of (class, #tokens, zone) with >=2 instances"
 	rep.Assumptions = []string{"keys matter only through comparison with tokens (one representative per gap and per token)", "instance ids matter only through equality"}
 	deadline := ev.Deadline(10 * time.Minute)
